@@ -4,6 +4,7 @@ mod client_suite;
 mod codec_suite;
 mod direct_suite;
 mod lat_suite;
+mod limits_suite;
 mod oracle;
 mod pool_suite;
 mod reader_suite;
@@ -215,6 +216,12 @@ fn main() {
         js_map(&out.stats),
         out.failures.len()
       ));
+      std::fs::write(&a.out, t).expect("write transcript");
+    },
+    "limits" => {
+      let (rt, local) = local_rt();
+      let (seed, cases) = (a.seed, a.cases);
+      let t = local.block_on(&rt, async move { limits_suite::run_suite(seed, cases).await });
       std::fs::write(&a.out, t).expect("write transcript");
     },
     "timers" => {
